@@ -544,7 +544,8 @@ def strategy(kind):
         from vlib import simchecks
 
         prof = st.sampled_from(["C01", "C01", "C09", "C13"])
-        return prof.flatmap(lambda p: simchecks.case_strategy(simchecks.PROFILES[p])).map(lambda c: {"kind": "sim", "case": c})
+        quantum = st.sampled_from([False, False, False, True])
+        return st.tuples(prof.flatmap(lambda p: simchecks.case_strategy(simchecks.PROFILES[p])), quantum).map(lambda t: {"kind": "sim", "case": dict(t[0], cfg=dict(t[0]["cfg"], quantum=t[1]))})
     if kind == "frames":
         from props import C05
 
